@@ -1398,8 +1398,13 @@ static Janet os_execute_impl(int32_t argc, Janet *argv, JanetExecuteMode mode) {
 
     os_execute_cleanup(envp, child_argv);
     if (status) {
+        /* The parent ends of pipes created for :pipe redirections have no owner yet */
+        int spawn_errno = errno;
+        if (pipe_owner_flags & JANET_PROC_OWNS_STDIN) close(new_in);
+        if (pipe_owner_flags & JANET_PROC_OWNS_STDOUT) close(new_out);
+        if (pipe_owner_flags & JANET_PROC_OWNS_STDERR) close(new_err);
         /* correct for macos bug where errno is not set */
-        janet_panicf("%p: %s", argv[0], janet_strerror(errno ? errno : ENOENT));
+        janet_panicf("%p: %s", argv[0], janet_strerror(spawn_errno ? spawn_errno : ENOENT));
     }
 
 #endif
